@@ -10,6 +10,7 @@ import (
 	plush "github.com/gobuffalo/plush/v5"
 	"github.com/gobuffalo/plush/v5/helpers/iterators"
 	"github.com/gobuffalo/plush/v5/helpers/meta"
+	"github.com/gobuffalo/plush/v5/vtick"
 )
 
 // C19 — iterator and collection helpers produce exact sequences and partitions.
@@ -161,10 +162,10 @@ func init() {
 	engine.Register(&engine.Prop{
 		ID: "C19",
 		Shards: func(th bool) []string {
-			return []string{"range", "alive", "between", "until", "template", "groupBy:string", "groupBy:int", "groupBy:struct", "groupBy:pointer", "groupBy:errors", "len"}
+			return []string{"range", "long", "alive", "between", "until", "template", "groupBy:string", "groupBy:int", "groupBy:struct", "groupBy:pointer", "groupBy:errors", "len"}
 		},
 		Run:  c19Run,
-		Rule: "range(a,b), between(a,b) for all pairs and until(n) for all n over [-8,8] ∪ {MinInt, MinInt+1, MaxInt-1, MaxInt}: drained under a Next() budget (first 24 values of long intervals), exact values, exhaustion is sticky; the same intervals (small ones) through a template for loop with a running count; (alive) every triple of 5 iterators: the first drained and polled 0..3 more times, then the other two created and read interleaved while the first is polled again - each yields exactly its own sequence, exhaustion is for ever. groupBy in both shipped implementations (helpers/iterators.GroupBy and plush.GroupByHelper) for every length 0..40 x n in -1..12 (and n in {1000, 2^20, 2^40, MaxInt/2+1, MaxInt-1, MaxInt, MinInt} for lengths <=6) x element type {string,int,struct,pointer} x {slice, pointer to slice, array, pointer to array, slice / pointer to slice with spare capacity holding other elements}: n<=0 is an error, otherwise <=n non-empty consecutive groups of xs's element type whose concatenation is xs, all but the last of equal size, and both implementations agree group by group, also while other groupBy iterators are alive and partly read (and nested in a template; a value built from a group with + leaves the later groups and xs as they were); non-sequences are errors. len(x) equals Go's len for string/slice/array/map/pointer to one, directly and through a template. Non-trivial: non-empty sequences.",
+		Rule: "range(a,b), between(a,b) for all pairs and until(n) for all n over [-8,8] ∪ {MinInt, MinInt+1, MaxInt-1, MaxInt}: drained under a Next() budget (first 24 values of long intervals), exact values, exhaustion is sticky; (long) until(70000), range(-70000,70000), between(-1,66000) drained completely and range / between over [p-3,p+3] for every power of two p = ±2^1..±2^62, a template loop over range(-300,1200) whose body records every key and value; template loops over range / between / until / groupBy whose body continues or breaks at every one or two element positions: every other element reaches the body in order; the same intervals (small ones) through a template for loop with a running count; (alive) every triple of 5 iterators: the first drained and polled 0..3 more times, then the other two created and read interleaved while the first is polled again - each yields exactly its own sequence, exhaustion is for ever. groupBy in both shipped implementations (helpers/iterators.GroupBy and plush.GroupByHelper) for every length 0..40 x n in -1..12 (and n in {1000, 2^20, 2^40, MaxInt/2+1, MaxInt-1, MaxInt, MinInt} for lengths <=6) x element type {string,int,struct,pointer} x {slice, pointer to slice, array, pointer to array, slice / pointer to slice with spare capacity holding other elements}: n<=0 is an error, otherwise <=n non-empty consecutive groups of xs's element type whose concatenation is xs, all but the last of equal size, and both implementations agree group by group, also while other groupBy iterators are alive and partly read (and nested in a template; a value built from a group with + leaves the later groups and xs as they were); non-sequences are errors. len(x) equals Go's len for string/slice/array/map/pointer to one, directly and through a template. Non-trivial: non-empty sequences.",
 		Bound: func(th bool) string {
 			return "int domain [-8,8] plus 4 extremes (all pairs); lengths 0..40 x n -1..12 x 4 element types x 4 container shapes"
 		},
@@ -193,6 +194,63 @@ func c19Run(t *engine.T, shard string) {
 				})
 			}
 		}
+	case shard == "long":
+		// long sequences drained completely, and short ones around every power of two: every value, no gaps
+		for _, c := range []struct {
+			name   string
+			it     nexter
+			lo, hi int
+		}{
+			{"until(70000)", iterators.Until(70000), 0, 69999}, {"range(-70000,70000)", iterators.Range(-70000, 70000), -70000, 70000}, {"between(-1,66000)", iterators.Between(-1, 66000), 0, 65999},
+		} {
+			c := c
+			t.Case("long "+c.name, true, func() (string, *engine.Fail) {
+				for v := c.lo; v <= c.hi; v++ {
+					if got := c.it.Next(); got != v {
+						return "", engine.Failf("sequence", "%s: expected %d, Next() returned %v", c.name, v, got)
+					}
+				}
+				if got := c.it.Next(); got != nil {
+					return "", engine.Failf("sequence", "%s: not exhausted after %d: %v", c.name, c.hi, got)
+				}
+				return "sequence", nil
+			})
+		}
+		for k := 1; k <= 62; k++ {
+			for _, sign := range []int{1, -1} {
+				p := sign * (1 << uint(k))
+				lo, hi := p-3, p+3
+				t.Case(fmt.Sprintf("long range around %d", p), true, func() (string, *engine.Fail) {
+					if f := c19Drain(iterators.Range(lo, hi), lo, hi, false); f != nil {
+						return "", f
+					}
+					if f := c19Drain(iterators.Between(lo-1, hi+1), lo, hi, false); f != nil {
+						return "", f
+					}
+					return "sequence", nil
+				})
+			}
+		}
+		// the same through a template loop: the body sees every value once
+		t.Case("long template until(1500) summed", true, func() (string, *engine.Fail) {
+			vtick.Reset(400_000_000)
+			var got []int
+			ctx := plush.NewContext()
+			ctx.Set("see", func(k, v int) string { got = append(got, k, v); return "" })
+			ctx.Set("lo", -300)
+			if _, err := Render(`<%= for (k, v) in range(lo, 1200) { %><%= see(k, v) %><% } %>`, ctx); err != nil {
+				return "", engine.Failf("sequence", "unexpected error %v", err)
+			}
+			if len(got) != 2*1501 {
+				return "", engine.Failf("sequence", "body ran %d times, expected 1501", len(got)/2)
+			}
+			for i := 0; i < len(got); i += 2 {
+				if got[i] != i/2 || got[i+1] != i/2-300 {
+					return "", engine.Failf("sequence", "iteration %d saw key %d value %d, expected %d / %d", i/2, got[i], got[i+1], i/2, i/2-300)
+				}
+			}
+			return "template-match", nil
+		})
 	case shard == "alive":
 		// several iterators alive at once, old ones polled again after exhaustion: every iterator yields exactly
 		// its own sequence and, once exhausted, nil for ever - whatever other iterators are created or polled meanwhile
@@ -359,6 +417,44 @@ func c19Run(t *engine.T, shard string) {
 				}
 				return "template-match", nil
 			})
+		}
+		// loops over the helpers' sequences whose body skips (continue) or stops (break) at element number j: every
+		// other element of the sequence still reaches the body, in order, with the running count
+		for _, h := range []struct {
+			src  string
+			vals []string
+		}{
+			{`range(1, 6)`, []string{"1", "2", "3", "4", "5", "6"}}, {`between(0, 5)`, []string{"1", "2", "3", "4"}}, {`until(5)`, []string{"0", "1", "2", "3", "4"}},
+			{`groupBy(4, seven)`, []string{"ab", "cd", "ef", "g"}}, {`range(m2, 1)`, []string{"-2", "-1", "0", "1"}}, {`range(3, 3)`, []string{"3"}},
+		} {
+			for j := 0; j <= len(h.vals); j++ {
+				for j2 := j; j2 <= len(h.vals); j2++ {
+					for _, ctl := range []string{"continue", "break"} {
+						h, j, j2, ctl := h, j, j2, ctl
+						src := `<%= for (k, v) in ` + h.src + ` { %><% if (k == ` + fmt.Sprint(j) + ` || k == ` + fmt.Sprint(j2) + `) { ` + ctl + ` } %><%= k %>:<%= v %>,<% } %>`
+						var want strings.Builder
+						for k, v := range h.vals {
+							if k == j || k == j2 {
+								if ctl == "break" {
+									break
+								}
+								continue
+							}
+							fmt.Fprintf(&want, "%d:%s,", k, v)
+						}
+						t.Case(fmt.Sprintf("template %s with %s at elements %d and %d", h.src, ctl, j, j2), true, func() (string, *engine.Fail) {
+							ctx := plush.NewContext()
+							ctx.Set("seven", []string{"a", "b", "c", "d", "e", "f", "g"})
+							ctx.Set("m2", -2)
+							out, err := Render(src, ctx)
+							if err != nil || out != want.String() {
+								return "", engine.Failf("sequence", "expected %q, got %q / %v", want.String(), out, err)
+							}
+							return "template-match", nil
+						})
+					}
+				}
+			}
 		}
 		// nested groupBy loops (two iterators alive at once)
 		t.Case("template nested groupBy", true, func() (string, *engine.Fail) {
